@@ -159,13 +159,51 @@ GeoBehaviour(c) ==
                 [op |-> "qtable", h |-> 1, dim |-> 3, props |-> <<PTag>>,
                  checks |-> <<[k |-> "tagname", at |-> 0, col |-> 4, names |-> <<FALSE, c.kind>>]>>, rows |-> GeoThickRows(c)] >>]
 
+(***************************************************************************)
+(* Grains and velocity are inherited by the same rule.  One coordinate k   *)
+(* has an entry that declares a grains or a velocity model at section or   *)
+(* at segment level; the feature itself has such a model or not.  Prop:    *)
+(* writing the resolved model into every segment of every coordinate, or   *)
+(* adding entries that only repeat the default segments, builds an         *)
+(* indistinguishable world (compared bitwise along the trench).            *)
+(***************************************************************************)
+GVConfig == [kind : Kinds, k : 0..2, lvl : {"section", "segment"}, what : {"grains", "velocity"}, feat : BOOLEAN]
+RotZ == << <<0, -1, 0>>, <<1, 0, 0>>, <<0, 0, 1>> >>
+RotX == << <<1, 0, 0>>, <<0, 0, -1>>, <<0, 1, 0>> >>
+GVModel(c, own) == IF c.what = "grains" THEN <<GUniform(<<0>>, <<IF own THEN RotX ELSE RotZ>>, <<IF own THEN Dec(25, -2) ELSE Dec(5, -1)>>)>>
+                   ELSE <<VUniform(IF own THEN <<7, 8, 9>> ELSE <<1, 2, 3>>)>>
+GVKey(c) == IF c.what = "grains" THEN "grains models" ELSE "velocity models"
+GVSeg(ms, c) == BaseSeg @@ (IF ms = <<>> THEN <<>> ELSE (GVKey(c) :> ms))
+GVResolved(c, j) == IF j = c.k THEN GVModel(c, TRUE) ELSE IF c.feat THEN GVModel(c, FALSE) ELSE <<>>
+GVEntry(c) == ("coordinate" :> c.k) @@ ("segments" :> <<GVSeg(IF c.lvl = "segment" THEN GVModel(c, TRUE) ELSE <<>>, c)>>)
+              @@ (IF c.lvl = "section" THEN (GVKey(c) :> GVModel(c, TRUE)) ELSE <<>>)
+GVDoc(c, layout) ==
+  LET entries == CASE layout = "asis" -> <<GVEntry(c)>>
+                   [] layout = "explicit" -> [i \in 1..3 |-> ("coordinate" :> (i - 1)) @@ ("segments" :> <<GVSeg(GVResolved(c, i - 1), c)>>)]
+                   [] layout = "repeat" -> [i \in 1..3 |-> IF i - 1 = c.k THEN GVEntry(c) ELSE RepeatEntry(i - 1)]
+      feat == Line(c.kind, "line", Trench3, <<500 * Km, 300 * Km>>, 0, 1000 * Km, <<BaseSeg>>, TM(FT), CM(FC),
+                   IF c.feat /\ c.what = "grains" THEN GVModel(c, FALSE) ELSE <<>>, IF c.feat /\ c.what = "velocity" THEN GVModel(c, FALSE) ELSE <<>>)
+  IN World(Cartesian, <<feat @@ ("sections" :> entries)>>)
+GVBehaviour(c) ==
+  [id |-> <<"sections-gv", c>>, labels |-> <<"sections", c.what, c.kind>>,
+   steps |-> << [op |-> "create", h |-> 1, wb |-> GVDoc(c, "asis")], [op |-> "create", h |-> 2, wb |-> GVDoc(c, "explicit")],
+                [op |-> "create", h |-> 3, wb |-> GVDoc(c, "repeat")],
+                [op |-> "qtable", h |-> 1, h2 |-> 2, dim |-> 3, props |-> <<PG(0, 2), PV, PT, PTag>>, rows |-> [i \in 1..9 |-> Row(i - 1)]],
+                [op |-> "qtable", h |-> 1, h2 |-> 3, dim |-> 3, props |-> <<PG(0, 2), PV, PT, PTag>>, rows |-> [i \in 1..9 |-> Row(i - 1)]] >>
+             \* the model declared for coordinate k is really used there (so the three worlds do not agree for a trivial reason):
+             \* at / within 1 km of coordinate k the own grain size or velocity comes back to within 5 %
+             \o << [op |-> "qtable", h |-> 1, dim |-> 3, props |-> <<IF c.what = "grains" THEN PG(0, 2) ELSE PV>>,
+                    checks |-> <<[k |-> "tol", at |-> 0, col |-> 4, rel |-> Dec(5, -2), abs |-> 0]>>,
+                    rows |-> << Row(4 * c.k) \o <<IF c.what = "grains" THEN Dec(25, -2) ELSE 7>> >>] >>]
+
 VARIABLES cfg
-Init == cfg \in Config \cup GeoConfig
+Init == cfg \in Config \cup GeoConfig \cup GVConfig
 Next == UNCHANGED cfg
 (* the oracle's own locality: the resolved values of the other coordinates do not depend on the entry of coordinate k *)
 IsGeo == "g" \in DOMAIN cfg
-LocalityOK == IsGeo \/ \A k \in 0..2 : \A j \in (0..2) \ {k} :
+IsGV == "what" \in DOMAIN cfg
+LocalityOK == IsGeo \/ IsGV \/ \A k \in 0..2 : \A j \in (0..2) \ {k} :
                  LET d == [cfg EXCEPT !.sec[k] = [present |-> FALSE, t |-> "inherit", c |-> "inherit"]]
                  IN ResT(d, j) = ResT(cfg, j) /\ ResC(d, j) = ResC(cfg, j)
-Emit == PrintT(<<"B", ToJson(IF IsGeo THEN GeoBehaviour(cfg) ELSE Behaviour(cfg))>>)
+Emit == PrintT(<<"B", ToJson(IF IsGeo THEN GeoBehaviour(cfg) ELSE IF IsGV THEN GVBehaviour(cfg) ELSE Behaviour(cfg))>>)
 =============================================================================
